@@ -252,8 +252,17 @@ func (e *Env) Thorough() bool { return e.Tier == "thorough" }
 
 // N picks a budget by tier (search mode uses the thorough budget).
 func (e *Env) N(quick, thorough int) int {
-	if e.Thorough() || e.Search {
+	if e.Thorough() {
 		return thorough
+	}
+	if e.Search {
+		// search mode (a proof / Tie / correspondence broke): a few times the quick budget per seed,
+		// bounded so that three seeds stay within minutes
+		n := quick * 4
+		if n > thorough {
+			n = thorough
+		}
+		return n
 	}
 	return quick
 }
